@@ -19,6 +19,10 @@ type model struct {
 
 var models = map[string]*model{}
 
+// parserLayers: the layer expressions registered with a gopacket.DecodingLayerParser created in the function under
+// verification (keyed by the parser's reference term)
+var parserLayers = map[*Term][]ast.Expr{}
+
 func lookupModel(fn *types.Func) *model {
 	if o := fn.Origin(); o != nil {
 		fn = o
@@ -357,6 +361,88 @@ func init() {
 		n := a[0].L[".len"]
 		ok := mkOr(mkEq(n, mkInt(sortInt, 4)), mkEq(n, mkInt(sortInt, 16)))
 		return []Value{av, boolV(ok)}
+	})
+	// ---- gopacket: the decoding layer parser fills the layer values registered with it ----
+	reg("github.com/google/gopacket.NewDecodingLayerParser", "returns a fresh parser that remembers the layers (&x arguments) it decodes into", func(ex *Exec, st *State, c *ast.CallExpr, r *Value, a []Value) []Value {
+		sig := ex.info().TypeOf(c.Fun).(*types.Signature)
+		ref := st.newRef()
+		var lvs []ast.Expr
+		for _, arg := range c.Args[1:] {
+			u, ok := ast.Unparen(arg).(*ast.UnaryExpr)
+			if !ok || u.Op != token.AND {
+				unsupp("NewDecodingLayerParser: layer argument must have the form &x")
+			}
+			lvs = append(lvs, u.X)
+		}
+		parserLayers[ref] = lvs
+		return []Value{scalarV(sig.Results().At(0).Type(), ref)}
+	})
+	dl := reg("(*github.com/google/gopacket.DecodingLayerParser).DecodeLayers", "decodes arbitrary data: every registered layer value and the list of decoded layer types become arbitrary (valid) values; error arbitrary", func(ex *Exec, st *State, c *ast.CallExpr, r *Value, a []Value) []Value {
+		lvs, ok := parserLayers[r.scalar()]
+		if !ok {
+			unsupp("DecodeLayers on a parser that was not created in this function")
+		}
+		for _, x := range lvs {
+			lv := ex.lvalue(x, st)
+			nv := freshValue("layer", lv.typ())
+			st.assumeValid(nv)
+			ex.assign(lv, nv, st, c)
+		}
+		// *decoded
+		if u, ok := ast.Unparen(c.Args[1]).(*ast.UnaryExpr); ok && u.Op == token.AND {
+			lv := ex.lvalue(u.X, st)
+			nv := freshValue("decoded", lv.typ())
+			st.assumeValid(nv)
+			ex.assign(lv, nv, st, c)
+			if sl, ok := lv.typ().Underlying().(*types.Slice); ok {
+				ex.havocRange(st, sl.Elem(), nv.L[".ref"])
+			}
+		} else {
+			unsupp("DecodeLayers: decoded argument must have the form &x")
+		}
+		e := freshValue("decodeerr", ex.vc.errT)
+		st.assumeValid(e)
+		return []Value{e}
+	})
+	dl.writes = func(call *ast.CallExpr, info *types.Info, w *writes) {
+		w.layerParser = true
+	}
+	reg("(*net.conn).LocalAddr", "on a *net.UDPConn: returns a non-nil *net.UDPAddr", func(ex *Exec, st *State, c *ast.CallExpr, r *Value, a []Value) []Value {
+		sig := ex.info().TypeOf(c.Fun).(*types.Signature)
+		var at types.Type
+		for _, p := range ex.vc.pkgs {
+			if ip, ok := p.Imports["net"]; ok {
+				if o := ip.Types.Scope().Lookup("UDPAddr"); o != nil {
+					at = types.NewPointer(o.Type())
+				}
+			}
+		}
+		if at == nil {
+			unsupp("net.UDPAddr not found")
+		}
+		ref := st.newRef()
+		av := freshValue("udpaddr", at.(*types.Pointer).Elem())
+		st.assumeValid(av)
+		st.writeObj(at.(*types.Pointer).Elem(), ref, av)
+		return []Value{ex.toInterface(scalarV(at, ref), sig.Results().At(0).Type(), st)}
+	})
+	reg("(*github.com/scionproto/scion/pkg/slayers.EndToEndExtn).FindOption", "returns a non-nil option or an error", func(ex *Exec, st *State, c *ast.CallExpr, r *Value, a []Value) []Value {
+		sig := ex.info().TypeOf(c.Fun).(*types.Signature)
+		pt := sig.Results().At(0).Type()
+		e := freshValue("finderr", ex.vc.errT)
+		st.assumeValid(e)
+		ref := st.newRef()
+		ov := freshValue("opt", pt.Underlying().(*types.Pointer).Elem())
+		st.assumeValid(ov)
+		st.writeObj(pt.Underlying().(*types.Pointer).Elem(), ref, ov)
+		isErr := mkNot(mkEq(e.scalar(), mkInt(sortRef, 0)))
+		return []Value{scalarV(pt, mkIte(isErr, mkInt(sortRef, 0), ref)), e}
+	})
+	reg("github.com/google/gopacket.NewSerializeBuffer", "returns a non-nil buffer", func(ex *Exec, st *State, c *ast.CallExpr, r *Value, a []Value) []Value {
+		sig := ex.info().TypeOf(c.Fun).(*types.Signature)
+		id := freshVar("serbuf", sortRef)
+		st.assume(mkCmp("lt", mkInt(sortRef, 0), id))
+		return []Value{scalarV(sig.Results().At(0).Type(), id)}
 	})
 	// ---- byte streams: arbitrary data from the peer ----
 	{
